@@ -12,9 +12,17 @@ use serde_json::json;
 pub trait GElem: Bits + ndarray::LinalgScalar + PartialEq + Send + Sync + num_traits::ToPrimitive + std::fmt::Debug {
     const NAME: &'static str;
     fn unique(counter: u64, weird: bool) -> Self;
+    /// a zero whose sign bit differs from `prev`'s if `prev` is itself a zero (equal under `==`,
+    /// different bit for bit); None for types without signed zeros
+    fn other_zero(_prev: Self) -> Option<Self> {
+        None
+    }
 }
 impl GElem for f64 {
     const NAME: &'static str = "f64";
+    fn other_zero(prev: f64) -> Option<f64> {
+        Some(if prev == 0.0 { -prev } else { 0.0 })
+    }
     fn unique(c: u64, weird: bool) -> f64 {
         if weird {
             match c % 3 {
@@ -29,6 +37,9 @@ impl GElem for f64 {
 }
 impl GElem for f32 {
     const NAME: &'static str = "f32";
+    fn other_zero(prev: f32) -> Option<f32> {
+        Some(if prev == 0.0 { -prev } else { -0.0 })
+    }
     fn unique(c: u64, weird: bool) -> f32 {
         if weird && c % 2 == 0 {
             f32::from_bits(0x7fc0_0000 | (c as u32 & 0x3f_ffff))
@@ -49,12 +60,19 @@ pub struct RecCond<S> {
     pub calls: Vec<(usize, Vec<u64>, u64)>, // (index, bits of given, bits of the answer)
     pub counter: u64,
     pub weird: bool,
+    /// two answers in three are zeros, of the sign opposite to the coordinate's current value if that is a zero
+    pub zeros: bool,
     pub _p: std::marker::PhantomData<S>,
 }
 impl<S: GElem> Conditional<S> for RecCond<S> {
     fn sample(&mut self, index: usize, given: &[S]) -> S {
         self.counter += 1;
-        let v = S::unique(self.counter, self.weird);
+        let mut v = S::unique(self.counter, self.weird);
+        if self.zeros && (self.counter.wrapping_mul(0x9e37_79b9_7f4a_7c15) >> 40) % 3 != 0 {
+            if let Some(z) = given.get(index).and_then(|p| S::other_zero(*p)) {
+                v = z;
+            }
+        }
         self.calls.push((index, bits_vec(given), v.bits()));
         v
     }
@@ -135,16 +153,21 @@ fn case<S: GElem>(ctx: &Ctx, rep: &mut Report, case: u64, g: &mut Sm64) {
         _ => g.range(1, 64),
     };
     let weird = g.chance(0.3);
+    let zeros = g.chance(0.25);
     let n_steps = g.range(1, if ctx.thorough { 60 } else { 25 });
     let init: Vec<S> = (0..d).map(|i| S::unique(1_000_000 + i as u64, false)).collect();
     let rc = RecCond::<S> {
         calls: vec![],
         counter: 0,
         weird,
+        zeros,
         _p: std::marker::PhantomData,
     };
     let sig = format!("GibbsMarkovChain::step S={}", S::NAME);
-    rep.distinct(("gibbs", S::NAME, d, weird, n_steps));
+    rep.distinct(("gibbs", S::NAME, d, weird, zeros, n_steps));
+    if zeros && S::other_zero(S::unique(1, false)).is_some() {
+        rep.count("histories_with_signed_zero_answers");
+    }
     rep.distinct_in("dimensions swept", d);
     if g.chance(0.5) {
         // direct stepping of one chain
